@@ -174,6 +174,10 @@ class Spec(object):
     def nontrivial(self, cfg, res):
         return "interrupted_at_shift_end" in res.flags or "overtime" in res.flags or "slot_started" in res.flags
 
+    def explicit_families(self, tier):
+        # complete state-space closure of the shared small networks (the monitor judges every transition of the graph)
+        return [explicit_small("sched"), explicit_small("sched-resume")] + (explicit_basic(tier) if tier != "quick" else [])
+
     def families(self, tier):
         from .. import universal
         return focused(tier) + universal.subset(tier, ["sched", "slotted"])
